@@ -41,6 +41,12 @@ MC_WRITES = {"module": "MC_Writes", "cfg": {"quick": "MC_Writes.cfg", "thorough"
 MC_WRITES_SPLIT = {"module": "MC_Writes", "cfg": {"quick": None, "thorough": "MC_Writes_split.cfg"}, "expect": "violation",
                    "timeout": {"quick": 900, "thorough": 900}, "workers": 8}
 
+# C17: the fork switch interleaved with a BlockFilters batch at write granularity, with the matched-blocks lock
+MC_CONC = {"module": "MC_Conc", "cfg": "MC_Conc.cfg", "timeout": {"quick": 600, "thorough": 600}, "workers": 4}
+# the lock discipline before fix 92f2bdb (tip and prove state updated outside the lock): TLC must refute it
+MC_CONC_PREFIX = {"module": "MC_Conc", "cfg": "MC_Conc_prefix.cfg", "expect": "violation",
+                  "timeout": {"quick": 600, "thorough": 600}, "workers": 4}
+
 FS_ASSUMPTIONS = COMMON_ASSUMPTIONS + [
     "the index is read back by a raw scan of the RocksDB keyspace after every event and compared with the ground truth TLC derives from the world (Index.tla)",
     "Golomb-coded filters may match more blocks than necessary: the specification only requires the true matches",
@@ -135,15 +141,22 @@ CHECKS = {
     },
     "C17": {
         "trace_module": "Trace_FilterSync",
-        "mc": [MC_FILTERSYNC],
+        "mc": [MC_FILTERSYNC, MC_CONC, MC_CONC_PREFIX],
         "drivers": [{"name": "concurrent", "driver": "concurrent", "args": [], "trace_module": "Trace_FilterSync",
                      "n": {"quick": 12, "thorough": 60}, "procs": {"quick": 6, "thorough": 14},
-                     "tier_args": {"quick": ["pairs=4", "maxk=4"], "thorough": ["pairs=6", "maxk=12"]}, "timeout": 3000}],
+                     "tier_args": {"quick": ["pairs=4", "maxk=4"], "thorough": ["pairs=6", "maxk=12"]}, "timeout": 3000},
+                    # one peer, no randomness: the fork switch suspended before each of its writes, and a batch of the
+                    # abandoned branch that fits the state it has left so far
+                    {"name": "concurrent-race", "driver": "concurrent", "args": ["race=1", "pairs=1", "maxk=12"], "trace_module": "Trace_FilterSync",
+                     "n": {"quick": 6, "thorough": 40}, "procs": {"quick": 2, "thorough": 6}, "timeout": 3000},
+                    # lock held at every write of the operations' critical sections (hook observation, Trace_Writes)
+                    wsync("fork", 8, 40, 1, 3), wsync("scripts", 6, 40, 1, 3)],
         "assumptions": FS_ASSUMPTIONS + [
             "the operations are set_scripts (RPC), a BlockFilters batch, the arrival of a matched block, a last-state proof that switches to a heavier fork, and get_cells_capacity as the reader; each runs on its own OS thread against the same store and Peers object, as the handlers of the real node do",
             "the first operation is suspended by the storage hook right before its k-th write (the reader: at its read points after the snapshot is taken), the second is started then; if it does not finish within 300 ms it is taken to be blocked and the first is released",
             "an experiment whose three runs (serial A;B, serial B;A, concurrent) do not start from the same projected state (the client iterates hash maps in random order) is discarded",
             "compared: script set and numbers, filter progress, matched-block records and map, index contents, stored tip and last-N, final check points, the peers' proved headers",
+            "MC_Conc explores every interleaving of the write chains of one fork switch and one BlockFilters batch (any start number, 1-2 filters of the abandoned branch) with the lock, followed by honest traffic of the new branch; more than two concurrent handler calls are not modelled (each protocol handles its messages one at a time)",
         ],
     },
     "C18": {
